@@ -86,6 +86,11 @@ def relay_configs(ctx):
   # a destination that fills up, is declared down and stays away (few event kinds, one metric, deeper)
   cfgs.append({'max_queue': 1, 'low_pct': 0.8, 'batch': 1, 'ndest': 2, 'dynamic': True, 'flow': True, 'protocol': 'pickle',
                'receivers': False, 'stop': False, 'hp': False, 'metrics': ('b',), 'deep': 6})
+  # the peer's socket buffer fills up INSIDE the write burst that empties a full queue (transport.write() calls
+  # pauseProducing() synchronously): the low-watermark check of that very send must still wake the receivers
+  for mq, batch, proto in ((1, 1, 'pickle'), (2, 5, 'pickle'), (2, 2, 'line'), (3, 5, 'line')):
+    cfgs.append({'max_queue': mq, 'low_pct': 0.8, 'batch': batch, 'ndest': 1, 'dynamic': False, 'flow': True, 'protocol': proto,
+                 'receivers': True, 'stop': False, 'hp': False, 'metrics': ('m',), 'arm': True})
   for mq, low, batch, nd, dyn in out:
     cfgs.append({'max_queue': mq, 'low_pct': low, 'batch': batch, 'ndest': nd, 'dynamic': dyn, 'flow': True,
                  'protocol': 'pickle', 'receivers': True, 'stop': False, 'hp': False,
